@@ -43,6 +43,8 @@ def agree_with_dlisio():
     from dlisio import dlis
     spec = json.load(open(os.path.join(HERE, 'tools', 'selftest_spec.json')))
     tmp = tempfile.mkdtemp(prefix='verif-selftest-')
+    import atexit, shutil
+    atexit.register(shutil.rmtree, tmp, ignore_errors=True)     # nothing is left under /tmp
     path = os.path.join(tmp, 'a.dlis')
     r = B.build_and_write(spec, path, tmp)
     assert r['outcome'] == 'written', r['exc']
